@@ -36,7 +36,7 @@ inductive Out
   | size (n : Nat)
   | elems (l : List Elem)                              -- iteration, in iteration order
   | stuck                                              -- model only: `emplace` would spin
-  deriving Repr
+  deriving Repr, DecidableEq
 
 /-- outputs agree: equal, except that iteration order is unspecified (same multiset) -/
 def Out.Equiv : Out → Out → Prop
